@@ -211,8 +211,8 @@ class ConstFuture(FutureBase):
         self.on_computed = (
             core_events.sinking_event_hook
         )  # Simple performance optimization
-        self.set_value(value)
         self._in_repr = False  # since we don't call super.__init__
+        self.set_value(value)
 
     def __reduce__(self):
         return (ConstFuture, (self._value,))
@@ -230,5 +230,5 @@ class ErrorFuture(FutureBase):
         self.on_computed = (
             core_events.sinking_event_hook
         )  # Simple performance optimization
-        self.set_error(error)
         self._in_repr = False  # since we don't call super.__init__
+        self.set_error(error)
